@@ -12,6 +12,7 @@ import (
 	"os"
 	"os/exec"
 	"path/filepath"
+	"runtime/pprof"
 	"strings"
 	"time"
 
@@ -62,7 +63,12 @@ func testHang(run uint64) {
 		for {
 		}
 	}
+	if v := os.Getenv("VERIF_TEST_BLOCK_RUN"); v != "" && v == fmt.Sprint(run) {
+		time.Sleep(1000 * time.Hour) // blocked, no CPU used
+	}
 }
+
+var stopProfile = func() {}
 
 func main() {
 	out = bufio.NewWriterSize(os.Stdout, 1<<16)
@@ -95,6 +101,13 @@ func main() {
 		}
 		*tmp = d
 		defer os.RemoveAll(d)
+	}
+	if pf := os.Getenv("VERIF_CPUPROFILE"); pf != "" { // development aid
+		if f, err := os.Create(pf); err == nil {
+			pprof.StartCPUProfile(f)
+			defer pprof.StopCPUProfile()
+			stopProfile = pprof.StopCPUProfile
+		}
 	}
 	env := &props.Env{Tmp: *tmp, Tier: *tier, Instr: buildInstr == "1", Race: buildRace == "1", Record: *record}
 	env.RaceNew = raceReader()
